@@ -79,7 +79,14 @@ pub fn run(index: usize, b: &Behaviour, perturb: bool) -> Outcome {
         }
         let got = chosen.first().cloned().unwrap_or_else(|| "none".into());
         if got != want {
-          issues.push(Issue { class: if perturb { "selftest".into() } else { "drift".into() }, code: "chosen-peer".into(), step: si + 1, detail: format!("real routed to {}, model to {}", got, want) });
+          // Round-robin in attachment order is what the property states and what Balancer.tla spells out.
+          // When the peer whose turn it was is attached and has room, and the message went to another
+          // peer, a turn was skipped: that is a verdict on the code, not a disagreement about the model.
+          let due_and_able = nonfull.contains(&want) && got != "none";
+          let class = if perturb { "selftest" } else if due_and_able { "prop" } else { "drift" };
+          let code = if due_and_able && !perturb { "skipped-turn" } else { "chosen-peer" };
+          issues.push(Issue { class: class.into(), code: code.into(), step: si + 1, detail: format!("real routed to {}, model to {}{}", got, want,
+            if due_and_able { format!(": it was {}'s turn in the rotation (attached, with room) and it was passed over", want) } else { String::new() }) });
         }
         // property level
         if chosen.len() > 1 {
